@@ -1,8 +1,16 @@
-"""MANIFEST.setup_cmd: full .vo build of every theory file, from files on disk only."""
+"""MANIFEST.setup_cmd: full .vo build of the theories of every claimed property, from files on disk only."""
+import json
 import sys
 
 from harness import core
 
-ok, out = core.make_all()
-print(out[-3000:])
-sys.exit(0 if ok else 1)
+manifest = json.load(open(core.VERIF / "MANIFEST.json"))
+failed = []
+for check in manifest["checks"]:
+    prop = check["property_id"]
+    ok, out = core.make_all(prop=prop, dirs=core.dirs_of(prop))
+    print(f"[setup] {prop}: {'ok' if ok else 'FAILED'}")
+    if not ok:
+        print(out[-3000:])
+        failed.append(prop)
+sys.exit(1 if failed else 0)
